@@ -2,7 +2,9 @@
 //
 // case lines (the optional trailing field <rawhex> is for the oracle only and ignored here):
 //   flate <P> <C> <N> <B> <enchex> [<rawhex>]   P,C,N,B = /Predictor /Colors /Columns /BitsPerComponent as
-//                                               decimal i64 or `_` (key absent).  The data is zlib-compressed
+//                                               decimal i64, `_` (key absent) or a non-integer object `~<t><k>`
+//                                               (n null, r real k.0, s string (k), m name /k, b true, a array [k],
+//                                               f reference k 0 R).  The data is zlib-compressed
 //                                               with the real flate2 and sent through the public entry point
 //                                               FlateDecode::new(&Some(&parms)).transform(..)  (parameter
 //                                               extraction, `as usize` casts, predictor function).
@@ -13,8 +15,8 @@
 use parsley_rust::pcore::parsebuffer::{LocatedVal, ParseBuffer, ParseBufferT};
 use parsley_rust::pcore::transforms::{BufferTransformT, TransformResult};
 use parsley_rust::pdf_lib::pdf_filters::{verif_paeth, verif_predict, FlateDecode};
-use parsley_rust::pdf_lib::pdf_obj::{DictKey, DictT, PDFObjT};
-use parsley_rust::pdf_lib::pdf_prim::IntegerT;
+use parsley_rust::pdf_lib::pdf_obj::{ArrayT, DictKey, DictT, PDFObjT, ReferenceT};
+use parsley_rust::pdf_lib::pdf_prim::{IntegerT, NameT, RealT};
 use std::collections::BTreeMap;
 use std::io::Write;
 use std::rc::Rc;
@@ -33,6 +35,38 @@ fn zlib(data: &[u8]) -> Vec<u8> {
     e.finish().unwrap()
 }
 
+// the object a parameter token denotes (None = key absent)
+fn param_obj(tok: &str) -> Result<Option<PDFObjT>, ()> {
+    if tok == "_" {
+        return Ok(None)
+    }
+    if let Some(rest) = tok.strip_prefix('~') {
+        if rest.is_empty() {
+            return Err(())
+        }
+        let (t, k) = rest.split_at(1);
+        let num = || k.parse::<u64>().map_err(|_| ());
+        return Ok(Some(match t {
+            "n" => PDFObjT::Null(()),
+            "r" => PDFObjT::Real(RealT::new(num()? as i128 * 10, 10)),
+            "s" => PDFObjT::String(k.as_bytes().to_vec()),
+            "m" => PDFObjT::Name(NameT::new(k.as_bytes().to_vec())),
+            "b" => PDFObjT::Boolean(true),
+            "a" => PDFObjT::Array(ArrayT::new(vec![Rc::new(LocatedVal::new(
+                PDFObjT::Integer(IntegerT::new(num()? as i64)),
+                0,
+                0,
+            ))])),
+            "f" => PDFObjT::Reference(ReferenceT::new(num()? as usize, 0)),
+            _ => return Err(()),
+        }))
+    }
+    match tok.parse::<i64>() {
+        Ok(v) => Ok(Some(PDFObjT::Integer(IntegerT::new(v)))),
+        Err(_) => Err(()),
+    }
+}
+
 pub fn run(line: &str) -> String {
     let w: Vec<&str> = line.split_whitespace().collect();
     if w.is_empty() {
@@ -49,15 +83,12 @@ pub fn run(line: &str) -> String {
             ]
             .iter()
             {
-                if *tok != "_" {
-                    let v: i64 = match tok.parse() {
-                        Ok(v) => v,
-                        Err(_) => return "bad-case".to_string(),
-                    };
-                    map.insert(
-                        DictKey::new(key.to_vec()),
-                        Rc::new(LocatedVal::new(PDFObjT::Integer(IntegerT::new(v)), 0, 0)),
-                    );
+                match param_obj(tok) {
+                    Ok(Some(o)) => {
+                        map.insert(DictKey::new(key.to_vec()), Rc::new(LocatedVal::new(o, 0, 0)));
+                    },
+                    Ok(None) => {},
+                    Err(_) => return "bad-case".to_string(),
                 }
             }
             let parms = DictT::new(map);
